@@ -91,6 +91,15 @@ func genReceipts(r *simrt.Rand, conns int, big bool) []receiptSub {
 		case x == 7:
 			s.Corrupt = "hash-short"
 			s.Hash = hash[:31]
+		case x == 9:
+			s.Corrupt = "hash-prepend"
+			s.Hash = append([]byte{[]byte{0, 1, '0'}[r.Intn(3)]}, hash...)
+		case x == 10:
+			s.Corrupt = "hash-append"
+			s.Hash = append(append([]byte(nil), hash...), 0)
+		case x == 11:
+			s.Corrupt = "hash-0x-prefix"
+			s.Hash = append([]byte("0x"), hash...)
 		case x == 8:
 			s.Corrupt = "sig-r-bit"
 			s.Sig = append([]byte(nil), sig...)
